@@ -26,7 +26,7 @@ from concurrent.futures import ThreadPoolExecutor
 LEVEL = "model_checking"
 
 DEVIATIONS = ["FIX_NamedResult", "FIX_AclWriteFirst", "FIX_DeferredReset", "FIX_LocalRollback", "FIX_DeleteAfter",
-              "FIX_NotifyAfterCommit", "DEV_HeadsOutsideTx", "DEV_SpaceTwoTx"]
+              "FIX_NotifyAfterCommit", "FIX_ValidateFirst", "DEV_HeadsOutsideTx", "DEV_SpaceTwoTx"]
 
 _lock = threading.Lock()
 
